@@ -570,7 +570,8 @@ func singletonFact(info *types.Info, fd *ast.FuncDecl, rg *ast.RangeStmt) string
 				}
 				// inside the then-branch?
 				inThen := i+1 < len(path) && path[i+1] == ast.Node(ifs.Body)
-				if be, ok := unparen(ifs.Cond).(*ast.BinaryExpr); ok && inThen && be.Op == token.EQL && lenVars[exprStr(be.X)] {
+				inElse := i+1 < len(path) && ifs.Else != nil && path[i+1] == ast.Node(ifs.Else)
+				if be, ok := unparen(ifs.Cond).(*ast.BinaryExpr); ok && (inThen && be.Op == token.EQL || inElse && be.Op == token.NEQ) && lenVars[exprStr(be.X)] {
 					if v, ok := exprInt(info, be.Y); ok && v == 1 {
 						fact = "inside `if " + exprStr(ifs.Cond) + "`"
 					}
